@@ -307,6 +307,8 @@ var strAlphabet = [][]byte{
 	nil, []byte("hello"), []byte("a(b)c"), []byte(")("), []byte("back\\slash"), []byte("line\nbreak"), []byte("cr\rlf\r\n"),
 	{0, 1, 2, 255}, []byte("endobj"), []byte("tab\t\b\f"), []byte("(((("), []byte("%not a comment"), {0x30}, {0x10, 0x20, 0x00},
 	[]byte("\\"), []byte("<<>>"), []byte("stream\nendstream"),
+	// several ends of line in one string: each is rendered in its own style
+	[]byte("first\nsecond\nthird"), []byte("\n\n"), []byte("a\nb\n\nc\n"), []byte("x\r\ny\nz\r"), []byte("\nlead and trail\n"),
 }
 
 func (g *gen) value(depth int, maxRef int) V {
